@@ -92,15 +92,37 @@ class Result:
                 self.extra[k] = v
 
 
+class ShardTimeout(BaseException):  # BaseException: must not be swallowed by the harness adapters that record "any Exception" as an observation
+    pass
+
+
+def _alarm(signum, frame):
+    raise ShardTimeout()
+
+
 def _worker(args):
     modname, shard, tier, seed = args
     import importlib
+    import signal
 
     mod = importlib.import_module(modname)
+    # watchdog: a changed implementation may loop forever (e.g. a list that grows while it is
+    # iterated); a shard that exceeds the limit is reported as a fault instead of hanging the run
+    limit = int(os.environ.get("VERIF_SHARD_TIMEOUT", "900" if tier == "quick" else "7200"))
+    try:
+        signal.signal(signal.SIGALRM, _alarm)
+        signal.alarm(limit)
+    except (ValueError, AttributeError):  # not in the main thread of the worker
+        pass
     try:
         res = mod.run_shard(shard, tier, seed)
+        signal.alarm(0)
         for v in res.violations:
             v["_shard"] = shard
+    except ShardTimeout:
+        r = Result("harness-fault")
+        r.extra["fault"] = [f"shard exceeded the {limit}s watchdog (implementation does not terminate or is pathologically slow): {json.dumps(shard, default=str)[:300]}"]
+        return r.finish()
     except Exception as e:  # harness fault inside a shard: surface it, never swallow
         import traceback
 
